@@ -1,30 +1,858 @@
-//! C08 — commissioning under the fail-safe is all-or-nothing. (work in progress: smoke test)
+//! C08 — commissioning under the fail-safe is all-or-nothing.
+//!
+//! Scenarios over the commissioning world (`commis.rs`): an optional completed first
+//! commissioning (pre-existing state), then an *attempt* (a new fabric over PASE, a second
+//! fabric through a window opened by the first administrator, or an UpdateNOC on an
+//! existing fabric) whose command list is cut / permuted / duplicated / issued from wrong
+//! session contexts, then a *trigger* (fail-safe expiry by timer, ArmFailSafe(0),
+//! RevokeCommissioning, device restart, or CommissioningComplete), optionally with a KV
+//! store failure injected at one mutating operation. Afterwards every prefix of the KV
+//! operation log is used as a crash point (restart from the map as it was after k
+//! mutating operations).
+//!
+//! Oracle (from the statement):
+//!  R1 rollback: after expiry / forced expiry / revoke / restart, the fabrics (canonical
+//!     serialisation incl. ACLs and groups), networks, fail-safe state and breadcrumb are what
+//!     they were before arming - in RAM and after a restart from the store.
+//!  R2 commit: after a CommissioningComplete answered OK, a restart comes up with exactly the
+//!     staged fabrics and networks.
+//!  R3 crash at any KV operation: the restarted node has either the pre-arming pair
+//!     (fabrics, networks) or the committed pair - committed only from the operation at which
+//!     the completion was acknowledged onwards, nothing of it before the completing command.
+//!  R4 order / once / context: credential commands without an armed fail-safe, out of the
+//!     prescribed order, repeated, or from another session context are refused and have no
+//!     effect; the prescribed sequence from the arming context is accepted.
+//!  R5 a completion that fails (KV error) is not a completion: the changes are undone at the
+//!     latest when the fail-safe would have expired, and a restart does not bring them up.
 
 use serde_json::json;
 
-use crate::mon::commis::{self, WorldParams};
+use crate::mon::commis::{self, Ctx as SCtx, DevDump, Step, StepLog, WorldParams, WorldResult};
 use crate::report::{Ctx, Report};
+use crate::sim::exec::RunStatus;
+use crate::sim::rng::{subseed, Fnv, Rng};
+
+#[derive(Clone, Copy, Debug, PartialEq, Eq)]
+pub enum AttemptKind {
+    /// First fabric, over the initial PASE window.
+    FirstOverPase,
+    /// Second fabric: window opened by admin A over CASE, then PASE.
+    SecondOverPase,
+    /// UpdateNOC on fabric A over admin A's CASE session.
+    UpdateNoc,
+}
+
+#[derive(Clone, Copy, Debug, PartialEq, Eq)]
+pub enum Trigger {
+    Expiry,
+    ForceExpire,
+    /// ArmFailSafe(0) from admin A's CASE session while B is being commissioned over PASE.
+    ForceExpireByOtherAdmin,
+    Revoke,
+    Restart,
+    Complete,
+    None,
+}
+
+#[derive(Clone, Debug, PartialEq, Eq)]
+pub enum Tamper {
+    None,
+    /// Cut the attempt after `n` commands.
+    Cut(u8),
+    /// Repeat command `i` right after itself.
+    Repeat(u8),
+    /// Swap commands `i` and `i+1`.
+    Swap(u8),
+    /// Issue command `i` from another session context.
+    WrongCtx(u8),
+    /// Drop command `i`.
+    Omit(u8),
+}
+
+#[derive(Clone, Debug)]
+pub struct Scenario {
+    pub seed: u64,
+    pub precommission: bool,
+    pub kind: AttemptKind,
+    pub tamper: Tamper,
+    pub trigger: Trigger,
+    pub fail_secs: u16,
+    pub kv_fail_at: Option<usize>,
+    pub chaos: u8,
+}
+
+/// Marks in the step list so the oracle can find its way.
+pub struct Built {
+    pub steps: Vec<Step>,
+    /// index of the first step of the attempt
+    pub attempt_start: usize,
+    /// index of the trigger step (if any)
+    pub trigger_at: Option<usize>,
+    /// the step indices of the attempt's commands with what the reference says about them
+    pub expect: Vec<(usize, Expect, &'static str)>,
+}
+
+#[derive(Clone, Copy, Debug, PartialEq, Eq)]
+pub enum Expect {
+    MustAccept,
+    MustReject,
+    Any,
+}
+
+fn pre_steps() -> Vec<Step> {
+    vec![
+        Step::Arm { ctx: SCtx::Pase, secs: 60 },
+        Step::Csr { ctx: SCtx::Pase, update: false },
+        Step::AddRoot { ctx: SCtx::Pase, fab_b: false },
+        Step::AddNoc { ctx: SCtx::Pase, fab_b: false },
+        Step::AddWifi { ctx: SCtx::Pase, n: 1 },
+        Step::Case { fab_b: false },
+        Step::Complete { ctx: SCtx::CaseA },
+        Step::WriteLabel { ctx: SCtx::CaseA, n: 7 },
+    ]
+}
+
+/// The prescribed command list of an attempt (without the trigger).
+fn attempt_steps(kind: AttemptKind, secs: u16) -> Vec<Step> {
+    match kind {
+        AttemptKind::FirstOverPase => vec![
+            Step::Arm { ctx: SCtx::Pase, secs },
+            Step::Csr { ctx: SCtx::Pase, update: false },
+            Step::AddRoot { ctx: SCtx::Pase, fab_b: false },
+            Step::AddNoc { ctx: SCtx::Pase, fab_b: false },
+            Step::AddWifi { ctx: SCtx::Pase, n: 2 },
+        ],
+        AttemptKind::SecondOverPase => vec![
+            Step::Arm { ctx: SCtx::Pase, secs },
+            Step::Csr { ctx: SCtx::Pase, update: false },
+            Step::AddRoot { ctx: SCtx::Pase, fab_b: true },
+            Step::AddNoc { ctx: SCtx::Pase, fab_b: true },
+            Step::AddWifi { ctx: SCtx::Pase, n: 3 },
+        ],
+        AttemptKind::UpdateNoc => vec![
+            Step::Arm { ctx: SCtx::CaseA, secs },
+            Step::Csr { ctx: SCtx::CaseA, update: true },
+            Step::UpdateNoc { ctx: SCtx::CaseA, fab_b: false },
+        ],
+    }
+}
+
+/// Reference fail-safe state machine, written from the statement: which credential
+/// commands must be accepted / refused.
+#[derive(Default, Clone)]
+struct FsRef {
+    armed_by: Option<SCtx>,
+    csr: Option<bool>, // Some(update?)
+    root: bool,
+    noc_done: bool,
+}
+
+impl FsRef {
+    fn same_ctx(&self, ctx: SCtx) -> bool {
+        self.armed_by == Some(ctx)
+    }
+
+    fn expect(&self, step: &Step) -> (Expect, &'static str) {
+        // Establishing a PASE session arms the fail-safe implicitly (with the default expiry),
+        // so commands over a PASE session are never "without an armed fail-safe".
+        let implicit = match step {
+            Step::Csr { ctx, .. }
+            | Step::AddRoot { ctx, .. }
+            | Step::AddNoc { ctx, .. }
+            | Step::UpdateNoc { ctx, .. } => *ctx == SCtx::Pase && self.armed_by.is_none(),
+            _ => false,
+        };
+        if implicit {
+            let mut me = self.clone();
+            me.armed_by = Some(SCtx::Pase);
+            let (e, why) = me.expect(step);
+            // only the refusals that do not depend on who armed stay binding
+            return match e {
+                Expect::MustReject => (Expect::MustReject, why),
+                _ => (Expect::Any, "over-implicitly-armed-pase"),
+            };
+        }
+        match step {
+            Step::Arm { .. } => (Expect::Any, "arm"),
+            Step::Csr { ctx, update } => {
+                if self.armed_by.is_none() {
+                    (Expect::MustReject, "csr-without-failsafe")
+                } else if !self.same_ctx(*ctx) {
+                    (Expect::MustReject, "csr-from-other-context")
+                } else if *update && *ctx == SCtx::Pase {
+                    (Expect::MustReject, "update-csr-over-pase")
+                } else if self.noc_done {
+                    (Expect::Any, "csr-after-noc")
+                } else if self.csr.is_some() {
+                    // a second CSRRequest: the statement says "once each"
+                    (Expect::MustReject, "csr-repeated")
+                } else {
+                    (Expect::MustAccept, "csr-in-order")
+                }
+            }
+            Step::AddRoot { ctx, .. } => {
+                if self.armed_by.is_none() {
+                    (Expect::MustReject, "root-without-failsafe")
+                } else if !self.same_ctx(*ctx) {
+                    (Expect::MustReject, "root-from-other-context")
+                } else if self.root {
+                    (Expect::MustReject, "root-repeated")
+                } else if self.noc_done {
+                    (Expect::Any, "root-after-noc")
+                } else {
+                    (Expect::MustAccept, "root-in-order")
+                }
+            }
+            Step::AddNoc { ctx, .. } => {
+                if self.armed_by.is_none() {
+                    (Expect::MustReject, "addnoc-without-failsafe")
+                } else if !self.same_ctx(*ctx) {
+                    (Expect::MustReject, "addnoc-from-other-context")
+                } else if self.noc_done {
+                    (Expect::MustReject, "addnoc-repeated")
+                } else if self.csr != Some(false) {
+                    (Expect::MustReject, "addnoc-without-csr")
+                } else if !self.root {
+                    (Expect::MustReject, "addnoc-without-root")
+                } else {
+                    (Expect::MustAccept, "addnoc-in-order")
+                }
+            }
+            Step::UpdateNoc { ctx, .. } => {
+                if self.armed_by.is_none() {
+                    (Expect::MustReject, "updatenoc-without-failsafe")
+                } else if !self.same_ctx(*ctx) {
+                    (Expect::MustReject, "updatenoc-from-other-context")
+                } else if *ctx == SCtx::Pase {
+                    (Expect::MustReject, "updatenoc-over-pase")
+                } else if self.noc_done {
+                    (Expect::MustReject, "updatenoc-repeated")
+                } else if self.csr != Some(true) {
+                    (Expect::MustReject, "updatenoc-without-update-csr")
+                } else {
+                    (Expect::MustAccept, "updatenoc-in-order")
+                }
+            }
+            _ => (Expect::Any, "other"),
+        }
+    }
+
+    fn apply(&mut self, step: &Step, success: bool) {
+        if !success {
+            return;
+        }
+        match step {
+            Step::Arm { ctx, secs } => {
+                if *secs == 0 {
+                    *self = FsRef::default();
+                } else if self.armed_by.is_none() {
+                    self.armed_by = Some(*ctx);
+                }
+            }
+            Step::Csr { ctx, update } => {
+                if self.armed_by.is_none() && *ctx == SCtx::Pase {
+                    self.armed_by = Some(SCtx::Pase);
+                }
+                self.csr = Some(*update)
+            }
+            Step::AddRoot { ctx, .. } => {
+                if self.armed_by.is_none() && *ctx == SCtx::Pase {
+                    self.armed_by = Some(SCtx::Pase);
+                }
+                self.root = true
+            }
+            Step::AddNoc { .. } | Step::UpdateNoc { .. } => self.noc_done = true,
+            Step::Complete { .. } => *self = FsRef::default(),
+            _ => {}
+        }
+    }
+}
+
+fn other_ctx(kind: AttemptKind, precommission: bool) -> SCtx {
+    match kind {
+        AttemptKind::UpdateNoc => SCtx::Pase,
+        _ => {
+            if precommission {
+                SCtx::CaseA
+            } else {
+                SCtx::CaseB // does not exist: NoSession on the controller side
+            }
+        }
+    }
+}
+
+fn with_ctx(step: &Step, ctx: SCtx) -> Step {
+    match step.clone() {
+        Step::Arm { secs, .. } => Step::Arm { ctx, secs },
+        Step::Csr { update, .. } => Step::Csr { ctx, update },
+        Step::AddRoot { fab_b, .. } => Step::AddRoot { ctx, fab_b },
+        Step::AddNoc { fab_b, .. } => Step::AddNoc { ctx, fab_b },
+        Step::UpdateNoc { fab_b, .. } => Step::UpdateNoc { ctx, fab_b },
+        Step::AddWifi { n, .. } => Step::AddWifi { ctx, n },
+        s => s,
+    }
+}
+
+pub fn build(sc: &Scenario) -> Built {
+    let mut steps = Vec::new();
+    let needs_pre = sc.precommission || sc.kind != AttemptKind::FirstOverPase;
+    if needs_pre {
+        steps.extend(pre_steps());
+    }
+    if sc.kind == AttemptKind::SecondOverPase {
+        steps.push(Step::OpenWindow { ctx: SCtx::CaseA });
+    }
+    if sc.kind == AttemptKind::FirstOverPase && needs_pre {
+        // "first over PASE" with a pre-commissioned fabric makes no sense: degrade to second
+        steps.push(Step::OpenWindow { ctx: SCtx::CaseA });
+    }
+    let kind = if sc.kind == AttemptKind::FirstOverPase && needs_pre {
+        AttemptKind::SecondOverPase
+    } else {
+        sc.kind
+    };
+    let attempt_start = steps.len();
+    let mut att = attempt_steps(kind, sc.fail_secs);
+    let n = att.len() as u8;
+    match sc.tamper {
+        Tamper::None => {}
+        Tamper::Cut(k) => att.truncate(((k % n) + 1) as usize),
+        Tamper::Repeat(i) => {
+            let i = (i % n) as usize;
+            let s = match att[i].clone() {
+                // Adding the *same* root again is idempotent by the Matter rules; "once" is
+                // tested with a different root the second time.
+                Step::AddRoot { ctx, fab_b } => Step::AddRoot { ctx, fab_b: !fab_b },
+                s => s,
+            };
+            att.insert(i + 1, s);
+        }
+        Tamper::Swap(i) => {
+            if n >= 2 {
+                let i = (i % (n - 1)) as usize;
+                att.swap(i, i + 1);
+            }
+        }
+        Tamper::WrongCtx(i) => {
+            // never the Arm itself (index 0): that would just make another context the armer
+            let i = 1 + (i % (n - 1)) as usize;
+            att[i] = with_ctx(&att[i], other_ctx(kind, needs_pre));
+        }
+        Tamper::Omit(i) => {
+            let i = 1 + (i % (n - 1)) as usize;
+            att.remove(i);
+        }
+    }
+    steps.extend(att);
+
+    let mut trigger_at = None;
+    match sc.trigger {
+        Trigger::Expiry => {
+            trigger_at = Some(steps.len());
+            steps.push(Step::Sleep { ms: sc.fail_secs as u32 * 1000 + 2500 });
+        }
+        Trigger::ForceExpire => {
+            trigger_at = Some(steps.len());
+            let ctx = if kind == AttemptKind::UpdateNoc { SCtx::CaseA } else { SCtx::Pase };
+            steps.push(Step::Arm { ctx, secs: 0 });
+        }
+        Trigger::ForceExpireByOtherAdmin => {
+            trigger_at = Some(steps.len());
+            steps.push(Step::Arm { ctx: SCtx::CaseA, secs: 0 });
+        }
+        Trigger::Revoke => {
+            trigger_at = Some(steps.len());
+            steps.push(Step::Revoke { ctx: SCtx::CaseA });
+        }
+        Trigger::Restart => {
+            trigger_at = Some(steps.len());
+            steps.push(Step::Restart);
+        }
+        Trigger::Complete => {
+            match kind {
+                AttemptKind::UpdateNoc => {
+                    // the old session keeps working until the new NOC is committed
+                    trigger_at = Some(steps.len());
+                    steps.push(Step::Complete { ctx: SCtx::CaseA });
+                }
+                AttemptKind::SecondOverPase => {
+                    steps.push(Step::Case { fab_b: true });
+                    trigger_at = Some(steps.len());
+                    steps.push(Step::Complete { ctx: SCtx::CaseB });
+                }
+                AttemptKind::FirstOverPase => {
+                    steps.push(Step::Case { fab_b: false });
+                    trigger_at = Some(steps.len());
+                    steps.push(Step::Complete { ctx: SCtx::CaseA });
+                }
+            }
+        }
+        Trigger::None => {}
+    }
+    // settle (and let a fail-safe that is still armed for whatever reason expire)
+    steps.push(Step::Sleep { ms: sc.fail_secs as u32 * 1000 + 3000 });
+
+    Built {
+        steps,
+        attempt_start,
+        trigger_at,
+        expect: Vec::new(),
+    }
+}
+
+pub fn gen_scenario(rng: &mut Rng) -> Scenario {
+    let kind = *rng.pick(&[
+        AttemptKind::FirstOverPase,
+        AttemptKind::FirstOverPase,
+        AttemptKind::SecondOverPase,
+        AttemptKind::SecondOverPase,
+        AttemptKind::UpdateNoc,
+    ]);
+    let precommission = kind != AttemptKind::FirstOverPase;
+    let tamper = match rng.below(10) {
+        0..=3 => Tamper::None,
+        4 | 5 => Tamper::Cut(rng.below(8) as u8),
+        6 => Tamper::Repeat(rng.below(8) as u8),
+        7 => Tamper::Swap(rng.below(8) as u8),
+        8 => Tamper::WrongCtx(rng.below(8) as u8),
+        _ => Tamper::Omit(rng.below(8) as u8),
+    };
+    let mut trigger = *rng.pick(&[
+        Trigger::Expiry,
+        Trigger::ForceExpire,
+        Trigger::ForceExpireByOtherAdmin,
+        Trigger::Revoke,
+        Trigger::Restart,
+        Trigger::Restart,
+        Trigger::Complete,
+        Trigger::Complete,
+        Trigger::None,
+    ]);
+    if !precommission && matches!(trigger, Trigger::ForceExpireByOtherAdmin | Trigger::Revoke) {
+        trigger = Trigger::ForceExpire;
+    }
+    let kv_fail_at = if rng.chance(1, 4) {
+        Some(1 + rng.usize(8))
+    } else {
+        None
+    };
+    Scenario {
+        seed: rng.u64(),
+        precommission,
+        kind,
+        tamper,
+        trigger,
+        fail_secs: *rng.pick(&[5u16, 8, 20]),
+        kv_fail_at,
+        chaos: if rng.chance(1, 6) { 10 } else { 0 },
+    }
+}
+
+fn state_pair(d: &DevDump) -> (Vec<(u8, Vec<u8>)>, Vec<Vec<u8>>) {
+    (
+        d.fabrics.iter().map(|(k, v)| (*k, v.clone())).collect(),
+        d.networks.clone(),
+    )
+}
+
+fn pair_hash(d: &DevDump) -> u64 {
+    let mut f = Fnv::new();
+    for (k, v) in &d.fabrics {
+        f.add(&[*k]);
+        f.add(v);
+    }
+    f.add(&[0xff]);
+    for n in &d.networks {
+        f.add(n);
+        f.add(&[0xfe]);
+    }
+    f.0
+}
+
+fn describe(d: &DevDump) -> String {
+    format!(
+        "fabrics {:?} networks {:?} failsafe {:?} breadcrumb {}",
+        d.fabric_ids
+            .iter()
+            .map(|(k, v)| (*k, v.0, v.1))
+            .collect::<Vec<_>>(),
+        d.networks
+            .iter()
+            .map(|n| String::from_utf8_lossy(n).to_string())
+            .collect::<Vec<_>>(),
+        d.failsafe,
+        d.breadcrumb
+    )
+}
+
+fn log_at(log: &[StepLog], idx: usize) -> Option<&StepLog> {
+    log.iter().find(|l| l.index == idx)
+}
+
+pub fn judge(rep: &mut Report, sc: &Scenario, b: &Built, r: &WorldResult, kv: &crate::sim::kv::SimKv, replay: serde_json::Value) {
+    if let Some(msg) = &r.panic {
+        rep.violation(
+            "no-panic",
+            &format!("C08/panic/{}", crate::util::panic_class(msg)),
+            format!("panic: {} scenario {:?}", msg, sc),
+            replay,
+        );
+        return;
+    }
+    if r.setup_failed {
+        rep.inconclusive("setup-failed(certificate generator)");
+        return;
+    }
+    match r.status {
+        Some(RunStatus::Done) => {}
+        s => {
+            rep.inconclusive(&format!("run-status-{:?}", s));
+            return;
+        }
+    }
+    if r.log.len() < b.steps.len() {
+        rep.inconclusive("scenario-did-not-run-to-the-end");
+        return;
+    }
+    let clean_net = sc.chaos == 0;
+
+    // ---- S0: the state right before the attempt's first command ----
+    let s0 = if b.attempt_start == 0 {
+        DevDump::default()
+    } else {
+        match log_at(&r.log, b.attempt_start - 1) {
+            Some(l) => l.dev.clone(),
+            None => {
+                rep.inconclusive("no-s0");
+                return;
+            }
+        }
+    };
+    if b.attempt_start > 0 {
+        // The pre-commissioning must have worked, or the scenario is not what it claims to be.
+        let pre_ok = r.log.iter().take(b.attempt_start).all(|l| l.success);
+        if !pre_ok {
+            if clean_net && sc.kv_fail_at.is_none() {
+                rep.violation(
+                    "R4-prescribed-order-accepted",
+                    "C08/R4/honest-precommissioning-failed",
+                    format!(
+                        "the honest first commissioning failed: {:?}",
+                        r.log.iter().take(b.attempt_start).map(|l| (format!("{:?}", l.step), l.out.clone())).collect::<Vec<_>>()
+                    ),
+                    replay.clone(),
+                );
+            } else {
+                rep.inconclusive("precommissioning-failed-under-faults");
+            }
+            return;
+        }
+    }
+
+    // ---- R4: order / once / context ----
+    let mut fs = FsRef::default();
+    let attempt_end = b.trigger_at.unwrap_or(b.steps.len() - 1);
+    let mut any_unexpected = false;
+    for l in r.log.iter().filter(|l| l.index >= b.attempt_start && l.index < attempt_end) {
+        let (exp, why) = fs.expect(&l.step);
+        let is_cred = matches!(
+            l.step,
+            Step::Csr { .. } | Step::AddRoot { .. } | Step::AddNoc { .. } | Step::UpdateNoc { .. }
+        );
+        if is_cred {
+            rep.count(&format!("R4:{}:{}", why, if l.success { "accepted" } else { "refused" }));
+        }
+        // transport-level failures under chaos / KV faults are not refusals by the rule
+        let transportish = l.out.contains("TxTimeout") || l.out.contains("RxTimeout") || l.out.contains("NoSession");
+        match exp {
+            Expect::MustAccept if !l.success && clean_net && sc.kv_fail_at.is_none() && !transportish => {
+                any_unexpected = true;
+                rep.violation(
+                    "R4-prescribed-order-accepted",
+                    &format!("C08/R4/refused/{}", why),
+                    format!("step {} {:?} was refused ({}) although it is the prescribed next command from the arming context; scenario {:?}", l.index, l.step, l.out, sc),
+                    replay.clone(),
+                );
+            }
+            Expect::MustReject if l.success => {
+                any_unexpected = true;
+                rep.violation(
+                    "R4-order-once-context",
+                    &format!("C08/R4/accepted/{}", why),
+                    format!("step {} {:?} was accepted ({}) although the statement requires it to be refused ({}); steps so far {:?}; scenario {:?}",
+                        l.index, l.step, l.out, why,
+                        r.log.iter().filter(|x| x.index >= b.attempt_start && x.index <= l.index).map(|x| (format!("{:?}", x.step), x.out.clone())).collect::<Vec<_>>(), sc),
+                    replay.clone(),
+                );
+            }
+            _ => {}
+        }
+        // a refused command must have no effect on fabrics / networks
+        if !l.success && is_cred {
+            if let Some(prev) = log_at(&r.log, l.index.wrapping_sub(1)) {
+                if l.index > 0 && state_pair(&prev.dev) != state_pair(&l.dev) && prev.incarnation == l.incarnation {
+                    rep.violation(
+                        "R4-order-once-context",
+                        &format!("C08/R4/refused-command-had-effect/{}", why),
+                        format!("step {} {:?} was refused ({}) but changed the device: before [{}] after [{}]", l.index, l.step, l.out, describe(&prev.dev), describe(&l.dev)),
+                        replay.clone(),
+                    );
+                }
+            }
+        }
+        fs.apply(&l.step, l.success);
+    }
+    let _ = any_unexpected;
+
+    // ---- what happened at the trigger ----
+    let last = r.log.last().unwrap();
+    let fin = &last.dev;
+    let trig = b.trigger_at.and_then(|i| log_at(&r.log, i));
+    let completed = matches!(sc.trigger, Trigger::Complete) && trig.map(|l| l.success).unwrap_or(false);
+    let armed_once = r
+        .log
+        .iter()
+        .any(|l| l.index >= b.attempt_start && matches!(l.step, Step::Arm { secs, .. } if secs > 0) && l.success);
+
+    rep.count(&format!("trigger:{:?}:{}", sc.trigger, if completed { "completed" } else { "not-completed" }));
+    rep.count(&format!("kind:{:?}", sc.kind));
+    rep.count(&format!("tamper:{}", format!("{:?}", sc.tamper).split('(').next().unwrap_or("")));
+
+    let restart = match &r.final_restart {
+        Some(d) => d,
+        None => {
+            rep.violation(
+                "R1-rollback",
+                "C08/restart-from-final-store-failed",
+                format!("a device restarted from the final KV store did not come up; scenario {:?}", sc),
+                replay.clone(),
+            );
+            return;
+        }
+    };
+
+    if completed {
+        // ---- R2 commit ----
+        rep.count("R2-checked");
+        let staged = &trig.unwrap().dev;
+        if state_pair(restart) != state_pair(staged) {
+            rep.violation(
+                "R2-commit-survives-restart",
+                "C08/R2/committed-state-not-restored-after-restart",
+                format!("CommissioningComplete was answered OK with [{}] but a restart from the store comes up with [{}]; scenario {:?}", describe(staged), describe(restart), sc),
+                replay.clone(),
+            );
+        }
+        if state_pair(fin) != state_pair(staged) {
+            rep.note("state-changed-after-commit-without-command");
+        }
+    } else if armed_once {
+        // ---- R1 / R5 rollback: everything the attempt changed is undone ----
+        let kv_failed = sc.kv_fail_at.map(|k| k <= r.kv_log_len).unwrap_or(false);
+        let rule = if matches!(sc.trigger, Trigger::Complete) { "R5-failed-completion" } else { "R1-rollback" };
+        // Where did the injected KV failure land? (first / second ... write of the completing
+        // command, or elsewhere)
+        let kv_where = if kv_failed {
+            let ops = kv.log();
+            let failed = ops.iter().find(|o| o.failed);
+            match (failed, b.trigger_at) {
+                (Some(f), Some(t)) if f.step as usize == t && matches!(sc.trigger, Trigger::Complete) => {
+                    let nth = ops.iter().filter(|o| o.step as usize == t && o.mut_index <= f.mut_index).count();
+                    format!("/kv-failure@commit-write-{}", nth)
+                }
+                (Some(_), _) => "/kv-failure@elsewhere".to_string(),
+                _ => "/kv-failure@not-reached".to_string(),
+            }
+        } else {
+            String::new()
+        };
+        let class = format!("{:?}/{:?}{}", sc.kind, sc.trigger, kv_where);
+        rep.count(&format!("{}-checked", rule));
+        if state_pair(fin) != state_pair(&s0) {
+            rep.violation(
+                rule,
+                &format!("C08/{}/ram-not-restored/{}", rule, class),
+                format!("after the trigger and the settle time the device holds [{}] but before arming it held [{}]; steps {:?}; scenario {:?}",
+                    describe(fin), describe(&s0),
+                    r.log.iter().filter(|x| x.index >= b.attempt_start).map(|x| (format!("{:?}", x.step), x.out.clone())).collect::<Vec<_>>(), sc),
+                replay.clone(),
+            );
+        }
+        if fin.failsafe.is_some() {
+            rep.violation(
+                rule,
+                &format!("C08/{}/failsafe-still-armed/{}", rule, class),
+                format!("fail-safe still armed {:?} after its expiry time; scenario {:?}", fin.failsafe, sc),
+                replay.clone(),
+            );
+        }
+        if fin.breadcrumb != 0 {
+            rep.violation(
+                rule,
+                &format!("C08/{}/breadcrumb-not-reset/{}", rule, class),
+                format!("breadcrumb {} after rollback; scenario {:?}", fin.breadcrumb, sc),
+                replay.clone(),
+            );
+        }
+        if state_pair(restart) != state_pair(&s0) {
+            rep.violation(
+                rule,
+                &format!("C08/{}/store-not-restored/{}", rule, class),
+                format!("a restart from the final store comes up with [{}] but before arming the device held [{}]; scenario {:?}", describe(restart), describe(&s0), sc),
+                replay.clone(),
+            );
+        }
+    } else {
+        rep.count("attempt-never-armed");
+    }
+
+    // ---- R3: crash at every KV operation ----
+    // Only for scenarios without an injected KV failure and with a reliable network (the
+    // acknowledgement bookkeeping below needs to know when the completion was acknowledged).
+    if sc.kv_fail_at.is_none() && clean_net && armed_once {
+        let attempt_kv0 = log_at(&r.log, b.attempt_start.saturating_sub(1)).map(|l| l.kv_ops).unwrap_or(0);
+        let (commit_from, commit_acked) = if completed {
+            let t = trig.unwrap();
+            let before = log_at(&r.log, t.index - 1).map(|l| l.kv_ops).unwrap_or(0);
+            (before, t.kv_ops)
+        } else {
+            (usize::MAX, usize::MAX)
+        };
+        let staged = trig.map(|t| state_pair(&t.dev));
+        let total = kv.mut_count();
+        for k in attempt_kv0..=total {
+            let snap = kv.snapshot(k);
+            let Some(d) = commis::restart_dump(&snap, sc.seed ^ k as u64) else {
+                rep.violation(
+                    "R3-crash-points",
+                    "C08/R3/restart-failed-at-crash-point",
+                    format!("restart from the store as of KV operation {} failed; scenario {:?}", k, sc),
+                    replay.clone(),
+                );
+                continue;
+            };
+            rep.count("R3-crash-points-checked");
+            let p = state_pair(&d);
+            let is_s0 = p == state_pair(&s0);
+            let is_staged = staged.as_ref().map(|s| *s == p).unwrap_or(false);
+            let ok = if k < commit_from || !completed {
+                // nothing of an uncommitted commissioning (later, non-attempt changes such as
+                // the resumption cache do not show in the pair)
+                is_s0 || (completed && false)
+            } else if k >= commit_acked {
+                is_staged || state_pair(fin) == p
+            } else {
+                is_s0 || is_staged
+            };
+            if !ok {
+                let phase = if k < commit_from || !completed {
+                    "before-completion"
+                } else if k >= commit_acked {
+                    "after-acknowledged-completion"
+                } else {
+                    "during-completion"
+                };
+                rep.violation(
+                    "R3-crash-points",
+                    &format!("C08/R3/{}/{:?}", phase, sc.kind),
+                    format!(
+                        "crash after KV operation {} ({}): restart comes up with [{}]; before arming [{}]; staged {:?}; KV log {:?}; scenario {:?}",
+                        k, phase, describe(&d), describe(&s0),
+                        trig.map(|t| describe(&t.dev)),
+                        kv.log().iter().map(|o| (o.mut_index, format!("{:?}", o.kind), o.key, o.step)).collect::<Vec<_>>(),
+                        sc
+                    ),
+                    replay.clone(),
+                );
+            }
+        }
+    }
+
+    for v in &r.tap_violations {
+        rep.violation(
+            "C15-tap",
+            &format!("C15/tap/{}", v.split(':').next().unwrap_or("x")),
+            format!("passive nonce monitor: {} scenario {:?}", v, sc),
+            replay.clone(),
+        );
+    }
+}
+
+fn scenario_json(sc: &Scenario) -> serde_json::Value {
+    json!({"check":"C08","scenario": format!("{:?}", sc)})
+}
+
+pub fn run_one(rep: &mut Report, sc: &Scenario, replay: serde_json::Value) -> (WorldResult, Built) {
+    let b = build(sc);
+    let p = WorldParams {
+        seed: sc.seed,
+        steps: b.steps.clone(),
+        shuffle: true,
+        kv_fail_at: sc.kv_fail_at,
+        chaos: sc.chaos,
+    };
+    let (r, kv) = commis::run_world_kv(&p);
+    rep.evaluations += 1;
+    rep.interleavings.insert(r.sched);
+    rep.count_n("datagrams_observed", r.datagrams);
+    rep.count_n("kv_mutating_ops", r.kv_log_len as u64);
+    judge(rep, sc, &b, &r, &kv, replay);
+    (r, b)
+}
 
 pub fn run(ctx: &Ctx) -> Report {
-    let mut rep = Report::new("C08", "wip");
+    let mut rep = Report::new(
+        "C08",
+        "Commissioning attempts (new fabric over PASE, second fabric through an opened window, UpdateNOC) with the command list cut / \
+         permuted / repeated / issued from another context, ended by expiry, ArmFailSafe(0), RevokeCommissioning, restart or \
+         CommissioningComplete, optionally with a KV failure at one store; every prefix of the KV log is a crash point. \
+         distinct = (attempt kind, tamper, trigger, KV-failure position, outcome of every command) tuples; all are non-trivial \
+         (each scenario contains at least a rollback or a commit).",
+    );
     crate::util::quiet_panics();
-    let p = WorldParams {
-        seed: ctx.shard_seed(),
-        steps: commis::happy_path(),
-        shuffle: true,
-        kv_fail_at: None,
-        chaos: 0,
-    };
-    let r = commis::run_world(&p);
-    rep.evaluations += 1;
-    rep.max_samples = 50;
-    for l in &r.log {
-        rep.sample(json!({"i": l.index, "step": format!("{:?}", l.step), "out": l.out, "t": l.t, "kv": l.kv_ops,
-            "fabrics": l.dev.fabrics.keys().collect::<Vec<_>>(), "failsafe": format!("{:?}", l.dev.failsafe), "nets": l.dev.networks.len(),
-            "sessions": l.dev.sessions.len(), "resumption": l.dev.resumption.len()}));
+    crate::util::init_log_from_env();
+    rep.assumptions.push("KvBlobStore contract: each store/remove atomic and durable on return; a crash point is the map after k mutating operations".into());
+    rep.assumptions.push("ArmFailSafe(0) / RevokeCommissioning by another administrator rolling back a foreign commissioning is observed, not judged (the statement restricts only the credential commands to the arming context)".into());
+    rep.floor("R1-rollback-checked", 40);
+    rep.floor("R2-checked", 20);
+    rep.floor("R3-crash-points-checked", 200);
+    rep.floor("R4:addnoc-in-order:accepted", 40);
+
+    if let Some(r) = &ctx.replay {
+        let seed: u64 = r["shard_seed"].as_str().and_then(|s| s.parse().ok()).unwrap_or(0);
+        let idx = r["index"].as_u64().unwrap_or(0);
+        let mut rng = Rng::new(subseed(seed, &[idx]));
+        let sc = gen_scenario(&mut rng);
+        let (res, b) = run_one(&mut rep, &sc, r.clone());
+        rep.max_samples = 60;
+        rep.sample(json!({"scenario": format!("{:?}", sc), "steps": b.steps.iter().map(|s| format!("{:?}", s)).collect::<Vec<_>>() }));
+        for l in &res.log {
+            rep.sample(json!({"i": l.index, "step": format!("{:?}", l.step), "out": l.out, "kv": l.kv_ops, "dev": describe(&l.dev)}));
+        }
+        return rep;
     }
-    rep.max_samples = 50;
-    rep.sample(json!({"status": format!("{:?}", r.status), "panic": r.panic, "boots": format!("{:?}", r.boots), "kv_ops": r.kv_log_len,
-        "final_restart_fabrics": r.final_restart.as_ref().map(|d| d.fabrics.keys().cloned().collect::<Vec<_>>()), "setup_failed": r.setup_failed, "datagrams": r.datagrams}));
+
+    let n = ctx.share(480, 24_000);
+    let shard_seed = ctx.shard_seed();
+    for k in 0..n {
+        let idx = k * ctx.nshards + ctx.shard;
+        let mut rng = Rng::new(subseed(shard_seed, &[idx]));
+        let sc = gen_scenario(&mut rng);
+        let mut rj = scenario_json(&sc);
+        rj["shard_seed"] = json!(shard_seed.to_string());
+        rj["index"] = json!(idx);
+        let (res, b) = run_one(&mut rep, &sc, rj);
+        let mut f = Fnv::new();
+        f.add(format!("{:?}|{:?}|{:?}|{:?}", sc.kind, sc.tamper, sc.trigger, sc.kv_fail_at).as_bytes());
+        for l in res.log.iter().filter(|l| l.index >= b.attempt_start) {
+            f.add(l.out.as_bytes());
+        }
+        rep.distinct.insert(f.0);
+        if k < 2 {
+            rep.sample(json!({"scenario": format!("{:?}", sc),
+                "steps": res.log.iter().map(|l| format!("{:?} -> {}", l.step, l.out)).collect::<Vec<_>>(),
+                "kv_ops": res.kv_log_len}));
+        }
+    }
     rep
 }
